@@ -18,7 +18,7 @@ func init() {
 		Technique: "codec schema extraction from go/ssa (structured CFG walk of writer/reader cursor calls), linear forms of size expressions, dominating-guard prover for raw indexing and allocation sizes",
 		Explain:   "Extracts, for every message of internal/protocol that is encoded through the writer cursor and decoded through the reader cursor, the ordered token sequence (width, repetition structure, nested messages, associated struct field) of both sides from the SSA control-flow graph and decides that they agree. Decides that a decoder which parses a nested message from the unread tail advances its cursor by exactly the nested encoder's size expression (linear forms over len(field)), that every allocation on the decode side is sized by a constant, a length, an at-most-16-bit wire integer or a value guarded against the input length or a constant, that raw index/slice expressions on input buffers are dominated by a length guard that covers their upper bound, and that the reader cursor's offset only grows under such a guard. Value-level round-trip equality, lower bounds of slice expressions and lenient skipping of malformed nested entries are not covered.",
 		Run:       runC05,
-		SelfTests: c05SelfTests,
+		SelfTests: append(append([]SelfTest{}, c05SelfTests...), c05MoreSelfTests...),
 	})
 }
 
@@ -293,6 +293,8 @@ func runC05(p *kit.Program, r *kit.Report) {
 	cx.ruleR2()
 	cx.ruleR3()
 	cx.ruleR4()
+	cx.ruleR5()
+	cx.ruleR6()
 	kit.DumpObs(r)
 }
 
